@@ -141,6 +141,14 @@ def translate_source():
     except Exception as e:
         open(out13, 'w').write('/-! source-level translation of the field container failed on this tree -/\n')
         status['Fields'] = 'untranslatable: translator failed (' + type(e).__name__ + ')'
+    # and the base renderers
+    out14 = os.path.join(LEAN, 'UbxModel', 'Gen', 'SrcStr.lean')
+    try:
+        r = sh([PY, os.path.join(ROOT, 'tools', 'pysrc2lean_str.py'), REPO, out14], timeout=120)
+        status['Str'] = r.stdout.strip().splitlines()[-1]
+    except Exception as e:
+        open(out14, 'w').write('/-! source-level translation of the base renderers failed on this tree -/\n')
+        status['Str'] = 'untranslatable: translator failed (' + type(e).__name__ + ')'
     # and the frame registry
     out10 = os.path.join(LEAN, 'UbxModel', 'Gen', 'SrcFactory.lean')
     try:
@@ -180,6 +188,7 @@ SRC_THEOREMS = {
                'blk_gnss', 'blk_esfla', 'blk_esfstatus', 'quot_len', 'blk_monver'],
     'Fields': ['contains_iff', 'setitem_fresh', 'inv_init', 'fields_add', 'add_inv', 'addMany_inv', 'sorted_is_added', 'sorted_reachable', 'add_names', 'get_added',
                'setattr_field', 'setattr_other', 'setattr_early', 'getattr_field', 'getattr_other', 'getattr_missing', 'setitem_value_only', 'getattr_after_setattr'],
+    'Str': ['item_str_named', 'item_str_total', 'fields_loop', 'frame_str_names', 'frame_str_total', 'frame_str_base'],
     'Factory': ['getitem_setitem', 'getitem_err', 'lookupR_register', 'agree_empty', 'fac_register', 'fac_build_with_data', 'fac_build'],
     'Gpsd': ['g_parse_version', 'g_devices_loop', 'g_parse_devices', 'g_line', 'g_lines', 'g_parse_gpsd_msg', 'absG_init', 'g_ready'],
     'Server': ['srv_check_poll', 'srv_check_ack_nak', 'srv_check_mga', 'srv_send', 'srv_wait', 'srv_set', 'srv_set_mga',
